@@ -267,7 +267,10 @@ def run(run):
             wobjs, wprops = ['only'], ['w%d' % j for j in range(15000)]
             wctx = concepts.Context(wobjs, wprops, [tuple(j % 7 == 0 or j == 14999 for j in range(15000))])
             for proto in range(0, pickle.HIGHEST_PROTOCOL + 1):
-                w2 = pickle.loads(pickle.dumps(wctx, proto))
+                try:
+                    w2 = pickle.loads(pickle.dumps(wctx, proto))
+                except Exception as e:       # raised inside the C pickler: no implementation frame on the traceback
+                    run.fail('pickle protocol %d of a 1 x 15000 context' % proto, 'raised %s: %s' % (type(e).__name__, str(e)[:200]), 'round trip', ['wide 15000'])
                 if not (w2 == wctx) or w2.extension(['w14999']) != ('only',):
                     run.fail('pickle protocol %d of a 1 x 15000 context' % proto, None, None, ['wide 15000'])
             run.case('wide 15000|pickle protocols', True, {'context': '1 x 15000'})
